@@ -16,6 +16,7 @@ from . import env
 from .obs import digest, jsonable
 
 HERE = env.VERIF
+REACH = {}  # repository file -> set of executed line numbers, merged over all workers of this run
 
 
 def _spawn(prop, batch, timeout):
@@ -47,7 +48,10 @@ def _spawn(prop, batch, timeout):
                 rec = json.loads(line)
             except ValueError:
                 continue
-            if rec.get("start"):
+            if "reach" in rec:
+                for fn, lines in rec["reach"].items():
+                    REACH.setdefault(fn, set()).update(lines)
+            elif rec.get("start"):
                 started.add(rec["i"])
             else:
                 res[rec["i"]] = rec["result"]
@@ -102,6 +106,42 @@ def farm(prop, cases, jobs, batch_timeout, case_timeout):
                 }
                 notes.append("case %d did not finish: %s" % (i, note2))
     return results, notes
+
+
+def _executable_lines(path):
+    """line numbers that carry code (from the compiled code objects), for the executed/executable ratio"""
+    import types
+
+    try:
+        code = compile(open(path).read(), path, "exec")
+    except Exception:  # noqa: BLE001
+        return set()
+    out = set()
+    stack = [code]
+    while stack:
+        c = stack.pop()
+        out.update(l for _s, _e, l in c.co_lines() if l is not None)
+        stack.extend(k for k in c.co_consts if isinstance(k, types.CodeType))
+    return out
+
+
+def reach_summary(prop):
+    """executed lines of the property's anchor files (what the workloads of this run actually drove)"""
+    anchors = []
+    try:
+        for l in open(os.path.join(HERE, "properties.jsonl")):
+            p = json.loads(l)
+            if p["id"] == prop:
+                anchors = [f.replace("openaerostruct/", "", 1) for f in p["anchors"]["files"]]
+    except Exception:  # noqa: BLE001
+        pass
+    out = {"anchor_files": {}, "other_repository_files_reached": len([f for f in REACH if f not in anchors])}
+    for f in anchors:
+        hit = REACH.get(f, set())
+        exe = _executable_lines(os.path.join(env.REPO, "openaerostruct", f))
+        out["anchor_files"][f] = {"executed_lines": len(hit & exe) if exe else len(hit), "executable_lines": len(exe)}
+    out["anchor_files_never_reached"] = [f for f, v in out["anchor_files"].items() if v["executed_lines"] == 0]
+    return out
 
 
 def load_known():
@@ -252,6 +292,7 @@ def main(argv=None):
                                     for k, v in sorted(fam.items())},
             "monitor_events": dict(sorted(monitors.items())),
             "known_findings_matched": {k: v["n"] for k, v in matched.items()},
+            "reach": reach_summary(prop),
             "inconclusive": inconclusive[:20],
             "repo": env.REPO,
         },
